@@ -179,7 +179,9 @@ impl<'a> Body for LimitBody<'a> {
         let unl = symx_api::opts_with_limit(self.b, usize::MAX);
         let r0 = symx_api::search_with(self.b, t, pos, 0, &unl);
         let st = symx_api::last_run_stats();
-        let bt = st.backtracks as usize;
+        // backtracks the run needs = alternatives it resumed (counted independently of the
+        // VM's own counter, which the limit is compared with)
+        let bt = st.resumes as usize;
         o.items.push(std::format!("{} backtracks={}", r0.canon(), bt));
         o.matched = matches!(r0, VmRes::Match(_));
         o.counters.push(("vm_steps".to_string(), st.steps));
@@ -929,6 +931,9 @@ pub fn process_c04(cfg: &RunCfg, item: &Item, rep: &mut PatReport) {
     };
     if let Ok(t) = parse_raw(&item.pattern) {
         rep.tags = crate::props::structural_tags(&t.expr);
+        if crate::props::inline_flag_in_leaky_group(&item.pattern) {
+            rep.tags.push("inline-flag-inside-capturing-or-atomic-group".to_string());
+        }
         if refsem::build(&t.expr).has_f1 && item.gen != "f1-witness" {
             rep.status = "skipped:F1 class (unbounded repeat over a body that can match empty)".to_string();
             return;
@@ -1061,9 +1066,9 @@ fn respell_items(p: &str, gen: &str, only: Option<&str>, out: &mut Vec<Item>) {
                 }
             }
             Err(_) => {
-                // the respelling itself is rejected by the parser (e.g. numbered and named
-                // references mixed): not a spelling of the same pattern
-                continue;
+                // the respelling is rejected by the parser although the default spelling of
+                // the same tree is accepted: reported by process_pair (build_pair)
+                it.note = std::format!("variant-rejected:{}", name);
             }
         }
         out.push(it);
@@ -1115,6 +1120,17 @@ pub fn work_list(cfg: &RunCfg) -> Option<WorkList> {
             for p in ex {
                 inject_items(&p, "exhaustive", None, &mut fixed);
             }
+            for (k, w) in corpus::alt_order(false).iter().enumerate() {
+                if thorough || k % 2 == 0 {
+                    inject_items(w, "alt-order", None, &mut fixed);
+                }
+            }
+            for (k, w) in corpus::compile_matrix(thorough).iter().enumerate() {
+                // every injection site of every matrix pattern is a lot: quick takes a fifth
+                if thorough || k % 5 == 0 {
+                    inject_items(w, "compile-matrix", None, &mut fixed);
+                }
+            }
             Some(WorkList { fixed, random_enabled: true, feats: corpus::FEATS_C01, max_depth: if thorough { 4 } else { 3 } })
         }
         "C19" => {
@@ -1161,6 +1177,9 @@ pub fn work_list(cfg: &RunCfg) -> Option<WorkList> {
             for p in ex {
                 fixed.push(Item::new(&p, "exhaustive"));
             }
+            for w in corpus::compile_matrix(thorough).iter() {
+                fixed.push(Item::new(w, "compile-matrix"));
+            }
             let fillers = corpus::exhaustive(&ATOMS_SMALL, &OPS_QUICK, 2);
             for ctx in corpus::contexts(corpus::FEATS_ALL) {
                 for f in &fillers {
@@ -1177,6 +1196,10 @@ pub fn work_list(cfg: &RunCfg) -> Option<WorkList> {
             for w in ["(?(a)b)", "(?(a)b|c)", "(?(a)bc|d)", "(?<=(?(a)b|c))d", "(?<=a?)b", "(?<=a|bc)d", "(?<=(?:a|bc))d", "(?<=a{2})b", "(?<=a{1,2})b", "(?<=\\bé)a", "(?<=€|ab)c",
                       "(?<!é|aa)b", "(?<=(a))\\1", "(?<=a(?=b))b", "(?<=.)\\b", "(?<=(?i:k))a", "(?<=[é€])a", "(?<=a\\K)b", "(?<=(?>a|bb))c", "(?<=(?:a|b)c)d", "(a)(?<=\\1)", "(?<=a*)b", "(?<=(a|bc))d"].iter() {
                 fixed.push(Item::new(w, "witness"));
+            }
+            for w in corpus::alt_order(false).iter().step_by(2) {
+                fixed.push(Item::new(w, "alt-order"));
+                fixed.push(Item::new(&std::format!("(?<={})c", w.replace("\\1", "")), "alt-order-in-lookbehind"));
             }
             let ex = corpus::exhaustive(&["a", "b", ".", "é"], &OPS_QUICK, if thorough { 4 } else { 3 });
             for p in ex {
@@ -1212,12 +1235,21 @@ pub fn work_list(cfg: &RunCfg) -> Option<WorkList> {
             for w in ["(\\b)*", "(\\B)*", "(?:\\b|(a)){2,}", "(?:\\b|a)*?b"].iter() {
                 fixed.push(Item::new(w, "f1-witness"));
             }
+            // flag scoping: negated flags, flags that end with their group, combinations
+            for body in ["\\ba", "a.\\b", "^a$\\b", "a+?b\\b", "[a-c]\\B.", "a\\b.b"].iter() {
+                for f in ["(?-i:X)", "(?-s:X)", "(?-m:X)", "(?-U:X)", "(?s-m:X)", "(?i-s:X)", "(?m-i:X)", "((?i)X)b", "(?:(?s)X).", "((?m)X)$", "(?i)(?-i)X", "(?i:(?-i:X))a", "(?U)(?-U:X)", "(?x: X )", "(?x-i: X # c\n)"].iter() {
+                    fixed.push(Item::new(&f.replace("X", body), "flag-scoping"));
+                }
+            }
             for w in ["\\bab\\b", "\\Ba", "a\\b.", "(a|ab)(c|bcd)?", "(?i)a[bc]", "(?m)^a$", "(?s).a", "(?x) a b ", "(?U)a+b", "(?P<n>a)(?P<m>b)?", "a*?b", "[^a]\\b", "\\w+\\b\\d?", "(?:a|\\b)+b", "(\\b)a", "\\b(?i:A)\\B"].iter() {
                 fixed.push(Item::new(w, "witness"));
             }
             let ex = corpus::exhaustive(&ATOMS_COMMON, &OPS_COMMON, if thorough { 4 } else { 3 });
             for p in ex {
                 fixed.push(Item::new(&p, "exhaustive"));
+            }
+            for w in corpus::alt_order(true).iter() {
+                fixed.push(Item::new(w, "alt-order"));
             }
             Some(WorkList { fixed, random_enabled: true, feats: corpus::F_CLASS | corpus::F_ANCHOR | corpus::F_WORDB | corpus::F_LAZY | corpus::F_FLAGS | corpus::F_MULTIBYTE, max_depth: if thorough { 4 } else { 3 } })
         }
